@@ -304,7 +304,7 @@ def evaluate(ctx, items, flagsets, open_map):
                    panic=out.get("panic"), site=out.get("site"))
         kind = X.handle_verdict(ctx, PID, v, flagsets, open_map, "block execution crashed, hung, or lost / reordered receipts (%s)" % (out.get("panic") or ""), rep)
         if kind == "mismatch":
-            ctx.broken("correspondence:judge_dispatch", "first differing block: " + json.dumps(rep)[:1500])
+            ctx.broken("correspondence:judge_dispatch", "first differing block: replay=%s %s" % (X.save_mismatch(ctx, rep), json.dumps(rep)[:600]))
 
 
 def run(ctx):
